@@ -436,6 +436,40 @@ pub fn configs(thorough: bool) -> Vec<(String, Vec<Vec<Call>>, usize)> {
         ],
         if thorough { 2 } else { 1 },
     ));
+    // every pair of operator families (identical pairs included), on shared data
+    {
+        let fam: Vec<(&str, Value)> = vec![
+            ("cat", json!({"cat": [{"var": "a"}, "-", {"var": "n"}]})),
+            ("merge", json!({"merge": [{"var": "xs"}, {"var": "a"}]})),
+            ("missing", json!({"missing": ["a", "zz", "b.c"]})),
+            ("missing_some", json!({"missing_some": [2, ["a", "zz", "n", "yy"]]})),
+            ("filter", json!({"filter": [{"var": "xs"}, {">": [{"var": ""}, 1]}]})),
+            ("map", json!({"map": [{"var": "xs"}, {"+": [{"var": ""}, 1]}]})),
+            ("reduce", json!({"reduce": [{"var": "xs"}, {"cat": [{"var": "accumulator"}, {"var": "current"}]}, ""]})),
+            ("all", json!({"all": [{"var": "xs"}, {"var": ""}]})),
+            ("some", json!({"some": [[{"var": "n"}, {"var": "nope"}], {"var": ""}]})),
+            ("substr", json!({"substr": [{"var": "a"}, -2, 1]})),
+            ("var", json!({"var": ["b.c", {"var": "a"}]})),
+            ("arith", json!({"+": [{"var": "n"}, "3.5", [2]]})),
+            ("max", json!({"max": [{"var": "n"}, "10", 3]})),
+            ("if", json!({"if": [{"var": "nope"}, 1, {"var": "a"}, {"var": "n"}, 3]})),
+            ("and-or", json!({"and": [{"var": "a"}, {"or": [{"var": "nope"}, {"var": "xs"}]}]})),
+            ("cmp", json!({"<": [{"var": "n"}, {"var": "a"}, "9"]})),
+            ("in", json!({"in": [{"var": "n"}, {"var": "xs"}]})),
+            ("log", json!({"log": {"var": "a"}})),
+        ];
+        let rules: Vec<(&str, Arc<Value>)> = fam.into_iter().map(|(n, r)| (n, Arc::new(r))).collect();
+        for i in 0..rules.len() {
+            for j in i..rules.len() {
+                // same rule object for identical pairs (shared Arc), different data for the two threads
+                v.push((
+                    format!("pair:{}|{}", rules[i].0, rules[j].0),
+                    vec![vec![Call { rule: rules[i].1.clone(), data: d1.clone() }], vec![Call { rule: rules[j].1.clone(), data: if i == j { d2.clone() } else { d1.clone() } }]],
+                    if thorough { 2 } else { 1 },
+                ));
+            }
+        }
+    }
     // rules nested close to the depth the text interfaces deliver (each fine alone): collide on
     // any process-wide budget such as a shared recursion-depth counter
     {
